@@ -1,9 +1,12 @@
 import GS.Model.Panics
+import GS.Model.PanicsRes
 import GS.Driver.Proto
 /-! line-protocol driver for the panic-isolation model (component `panics`, property C22).
 
-ops: `inject <side> <kind> <block> <n> <pre> <ls> [<val>]` and `handler <value> <cb|nocb>`; output, same
-format as `gs-panics run`: `survived=<0|1> fired=<0|1> err=<none|panic|failed|…> cb=<k> val=<0|1|-> sibling=<0|1>`
+ops: `inject <side> <kind> <block> <n> <pre> <ls> [<val> [<lim>]]` and `handler <value> <cb|nocb>`; output, same
+format as `gs-panics run`: `survived=<0|1> fired=<0|1> err=<none|panic|failed|…> cb=<k> val=<0|1|-> sibling=<0|1> late=<0|1> leak=<0|1>`
+(late / leak come from the resource model `GS.Panics.Res.predictRes`: one worker, one task per peer, on the
+node the fault is injected on, with the clean-up path generated from the source)
 (`survived=0 fired=1 err=- cb=- val=- sibling=-` for a dead process).  The kind of the panic VALUE
 (`<val>`) does not influence the prediction: the generated handler cannot look into it.  The prediction is computed from
 the generated site table `GS.Generated.PanicSites.table`; `<ls>` (which link system the target
@@ -30,20 +33,21 @@ def parseKind : String → Option Kind
 
 def b2s (b : Bool) : String := if b then "1" else "0"
 
-def render (p : Prediction) : String :=
+def render (p : Prediction) (q : GS.Panics.Res.ResPrediction) : String :=
   if p.survived then
     let v := if p.fired then b2s p.valOK else "-"
-    s!"survived=1 fired={b2s p.fired} err={p.err} cb={p.cb} val={v} sibling={b2s p.sibling}"
+    s!"survived=1 fired={b2s p.fired} err={p.err} cb={p.cb} val={v} sibling={b2s p.sibling} late={b2s q.late} leak={b2s q.leak}"
   else
-    s!"survived=0 fired={b2s p.fired} err=- cb=- val=- sibling=-"
+    s!"survived=0 fired={b2s p.fired} err=- cb=- val=- sibling=- late=- leak=-"
 
 def valKinds : List String := ["str", "err", "rt-nilmap", "rt-nilptr", "rt-index", "struct"]
 
-def inject (sd kd k n pre ls val : String) : String :=
+def inject (sd kd k n pre ls val lim : String) : String :=
   match parseSide sd, parseKind kd, k.toNat?, n.toNat?, pre.toNat? with
   | some sd, some kd, some k, some n, some pre =>
-    if n < 1 || n > 64 || k ≥ n || pre > n || !(ls == "def" || ls == "opt") || !valKinds.contains val then "bad-op"
-    else render (predict table sd kd k n pre)
+    if n < 1 || n > 64 || k ≥ n || pre > n || !(ls == "def" || ls == "opt") || !valKinds.contains val
+        || !(lim == "wide" || lim == "tight") then "bad-op"
+    else render (predict table sd kd k n pre) (GS.Panics.Res.predictRes sd kd k n pre)
   | _, _, _, _, _ => "bad-op"
 
 /-- `handler <value> <cb|nocb>`: panics.MakeHandler called directly; the model runs the generated
@@ -60,8 +64,9 @@ def handlerLine (v cb : String) : String :=
 
 def stepLine (t : Toks) : String :=
   match t with
-  | ["inject", sd, kd, k, n, pre, ls] => inject sd kd k n pre ls "str"
-  | ["inject", sd, kd, k, n, pre, ls, val] => inject sd kd k n pre ls val
+  | ["inject", sd, kd, k, n, pre, ls] => inject sd kd k n pre ls "str" "wide"
+  | ["inject", sd, kd, k, n, pre, ls, val] => inject sd kd k n pre ls val "wide"
+  | ["inject", sd, kd, k, n, pre, ls, val, lim] => inject sd kd k n pre ls val lim
   | ["handler", v, cb] => handlerLine v cb
   | _ => "bad-op"
 
